@@ -74,7 +74,7 @@ type harnessTSA struct {
 var (
 	tsaSrvOnce sync.Once
 	tsaSrv     *httptest.Server
-	tsaMu      sync.Mutex
+	tsaRegMu      sync.Mutex
 	tsaReg     = map[string]*harnessTSA{}
 	tsaSeq     int
 )
@@ -82,9 +82,9 @@ var (
 func tsaServer() *httptest.Server {
 	tsaSrvOnce.Do(func() {
 		tsaSrv = httptest.NewServer(http.HandlerFunc(func(w http.ResponseWriter, r *http.Request) {
-			tsaMu.Lock()
+			tsaRegMu.Lock()
 			h := tsaReg[strings.TrimPrefix(r.URL.Path, "/")]
-			tsaMu.Unlock()
+			tsaRegMu.Unlock()
 			body, _ := io.ReadAll(r.Body)
 			if h == nil {
 				http.Error(w, "unknown authority", 404)
@@ -107,11 +107,11 @@ func tsaServer() *httptest.Server {
 func (h *harnessTSA) Timestamp(ctx context.Context, req *pkcs9.Request) (*pkcs7.ContentInfoSignedData, error) {
 	h.once.Do(func() {
 		srv := tsaServer()
-		tsaMu.Lock()
+		tsaRegMu.Lock()
 		tsaSeq++
 		id := fmt.Sprintf("a%d", tsaSeq)
 		tsaReg[id] = h
-		tsaMu.Unlock()
+		tsaRegMu.Unlock()
 		h.client, h.cerr = tsclient.New(&config.TimestampConfig{URLs: []string{srv.URL + "/" + id}, Timeout: 60})
 	})
 	if h.cerr != nil {
@@ -127,7 +127,7 @@ func (h *harnessTSA) Timestamp(ctx context.Context, req *pkcs9.Request) (*pkcs7.
 // must still be the authority's token for ITS request.
 func tokenLifetimePhase() {
 	shapes := []*dergen.Params{nil}
-	for _, certs := range []string{"chain", "none", "leaf"} {
+	for _, certs := range []string{"3s", "leaf", "3u"} {
 		p := dergen.Params{Version: "3", DigAlgs: "1n", EContent: "tst", Certs: certs, CRLs: "no", Signers: "1", SID: "ias",
 			Attrs: "sorted", SigAlg: "rsa", Unsigned: "none", Trailing: "0", Key: "tsa"}
 		shapes = append(shapes, &p)
